@@ -214,6 +214,8 @@ def _center_cfgs():
                     c["tier"] = "thorough"
                 out.append(c)
         out.append({"chroms": ["1", "2", "X"], "estimator": "median", "by_chrom": True, "skip_low": True, "genome": genome})
+        # no chromosome named like an autosome: everything is centred, PAR genome or not
+        out.append({"chroms": ["chrX", "chrX", "chrY"], "estimator": "mean", "by_chrom": False, "skip_low": False, "genome": genome})
     return out
 
 
